@@ -4,7 +4,11 @@
 pub struct BTreeMap<V> { p: core::marker::PhantomData<V> }
 #[verifier::external_body] #[verifier::reject_recursive_types(V)]
 pub struct BRange<'a, V> { p: core::marker::PhantomData<&'a V> }
-pub open spec fn latest_before<V>(m: Map<TxId, V>, b: TxId) -> Option<TxId> {
+/// the range bounds the real code (or a plausible edit of it) may pass to BTreeMap::range
+pub trait TxRangeBound { spec fn excl(&self) -> int; }
+impl TxRangeBound for core::ops::RangeTo<TxId> { open spec fn excl(&self) -> int { self.end as int } }
+impl TxRangeBound for core::ops::RangeToInclusive<TxId> { open spec fn excl(&self) -> int { self.end as int + 1 } }
+pub open spec fn latest_before<V>(m: Map<TxId, V>, b: int) -> Option<TxId> {
     if exists|k: TxId| m.contains_key(k) && k < b {
         Some(choose|k: TxId| m.contains_key(k) && k < b && forall|j: TxId| m.contains_key(j) && j < b ==> j <= k)
     } else { None }
@@ -14,7 +18,7 @@ impl<V> BTreeMap<V> {
     /// issued fact: the entry of `k` has been removed through this handle
     pub uninterp spec fn removed(&self, k: TxId) -> bool;
     #[verifier::external_body]
-    pub fn range(&self, r: core::ops::RangeTo<TxId>) -> (it: BRange<'_, V>) ensures it.map() == self@, it.bound() == r.end { unimplemented!() }
+    pub fn range<R: TxRangeBound>(&self, r: R) -> (it: BRange<'_, V>) ensures it.map() == self@, it.bound() == r.excl() { unimplemented!() }
     #[verifier::external_body]
     pub fn get_mut(&mut self, k: &TxId) -> (r: Option<&mut V>)
         ensures r is Some == old(self)@.contains_key(*k),
@@ -26,7 +30,7 @@ impl<V> BTreeMap<V> {
 }
 impl<'a, V> BRange<'a, V> {
     pub uninterp spec fn map(&self) -> Map<TxId, V>;
-    pub uninterp spec fn bound(&self) -> TxId;
+    pub uninterp spec fn bound(&self) -> int;
     #[verifier::external_body]
     pub fn next_back(&mut self) -> (r: Option<(&'a TxId, &'a V)>)
         ensures match latest_before(old(self).map(), old(self).bound()) {
